@@ -2,7 +2,7 @@
    quietly weakened; the lemmas live in Proofs_*.v; the model in Model.v; Gen/C17.v is
    regenerated from /repo on every run. *)
 From Coq Require Import String Permutation Sorting.Sorted.
-From Sdns Require Import Common.Base Common.GoList Gen.C17 C17.Model C17.Proofs_arith C17.Proofs_search C17.Run C17.Proofs_set C17.Proofs_loops C17.Proofs_writer.
+From Sdns Require Import Common.Base Common.GoList Gen.C17 C17.Model C17.Proofs_arith C17.Proofs_search C17.Run C17.Proofs_set C17.Proofs_loops C17.Proofs_writer C17.Proofs_policy C17.Proofs_views.
 Open Scope N_scope.
 
 (* translator ties: the Go functions, as translated from the source now, are the order on
@@ -155,7 +155,7 @@ Print Assumptions client_is_never_internal.
 
 Theorem subquery_writer_is_internal :
   writer_internal subquery_remote = true /\ sentinel_remote subquery_remote = true /\
-  r_says subquery_remote = Some true.
+  (forall w, r_says subquery_remote = Some (go_BufferWriter_Internal w)).
 Proof. exact subquery_internal. Qed.
 Print Assumptions subquery_writer_is_internal.
 
@@ -213,6 +213,99 @@ Example writer_examples :
   (* neighbours of the sentinel with port 0 are clients *)
   writer_internal (mk_remote KUdp (Some (mk_addr true 2130706686)) 0 None) = false /\
   writer_internal (mk_remote KUdp (Some (mk_addr true 2130706944)) 0 None) = false.
+Proof. vm_compute. repeat split. Qed.
+
+(* ---- what an internal request skips downstream: the per-client rate limiter (and reflex) ---- *)
+
+Theorem policy_guards_pinned :
+  ratelimit_passes = [bytes_of "ch.Replay()"%string; bytes_of "w.Internal()"%string; bytes_of "r.rate == 0"%string;
+                      bytes_of "w.RemoteIP() == nil"%string; bytes_of "w.RemoteIP().IsLoopback()"%string] /\
+  reflex_passes = [bytes_of "w.Internal() || w.RemoteIP() == nil || w.RemoteIP().IsLoopback()"%string].
+Proof. exact policy_guards_text. Qed.
+Print Assumptions policy_guards_pinned.
+
+(* the limiter's exemptions are exactly: internal, limiter off, no peer address, loopback peer *)
+Theorem ratelimit_exemptions_exact : forall r rate,
+  rl_charged rate r = false <->
+  writer_internal r = true \/ rate = 0 \/ writer_remote_ip r = None \/
+  (exists a, writer_remote_ip r = Some a /\ is_loopback a = true).
+Proof. exact rl_exemptions. Qed.
+Print Assumptions ratelimit_exemptions_exact.
+
+Theorem ratelimit_decision_is_spec : forall rate r, (forall a, r_ip r = Some a -> addr_ok a) ->
+  rl_charged rate r =
+  negb (spec_subquery r) && negb (rate =? 0) &&
+  match spec_client_ip r with Some a => negb (spec_loopback a) | None => false end.
+Proof. exact rl_charged_is_spec. Qed.
+Print Assumptions ratelimit_decision_is_spec.
+
+(* a flood from a client address is held to its budget on every transport address type *)
+Theorem client_flood_is_rate_limited : forall rate n r a,
+  rate <> 0 -> r_says r <> Some true -> (r_port r <> 0%Z \/ ip_is_sentinel (r_ip r) = false) ->
+  writer_remote_ip r = Some a -> is_loopback a = false ->
+  flood_answered rate n r = N.min n rate.
+Proof. exact client_flood_limited. Qed.
+Print Assumptions client_flood_is_rate_limited.
+
+(* a sub-query never is: on the handler order and ClientOnly set read from the source now *)
+Theorem subquery_is_never_rate_limited : forall via rate n,
+  sub_flood_answered handler_order via rate n = n /\
+  flood_answered rate n subquery_remote = n /\
+  mem_name n_ratelimit_name (queryer_sub handler_order) = false /\
+  mem_name n_ratelimit_name (prefetch_sub handler_order) = false.
+Proof. exact subquery_never_limited. Qed.
+Print Assumptions subquery_is_never_rate_limited.
+
+Example flood_examples :
+  (* 12 queries at 3 per minute: a LAN client over UDP, over TCP, in IPv4-mapped form over the DoH writer: 3 pass *)
+  flood_answered 3 12 (mk_remote KUdp (Some (mk_addr true 167838211)) 4242 None) = 3 /\
+  flood_answered 3 12 (mk_remote KTcp (Some (mk_addr true 167838211)) 4242 None) = 3 /\
+  flood_answered 3 12 (mk_remote KTcp (Some (mk_addr false (mapped_prefix + 167838211))) 443 (Some false)) = 3 /\
+  (* the sub-query writer: all 12; a transport that declares itself internal: all 12; limiter off: all 12 *)
+  flood_answered 3 12 subquery_remote = 12 /\
+  flood_answered 3 12 (mk_remote KUdp (Some (mk_addr true 167838211)) 4242 (Some true)) = 12 /\
+  flood_answered 0 12 (mk_remote KUdp (Some (mk_addr true 167838211)) 4242 None) = 12 /\
+  (* a client from the sentinel address with a real port is NOT internal; it is exempt only as a loopback peer *)
+  writer_internal (mk_remote KTcp (Some (mk_addr true 2130706687)) 40000 None) = false /\
+  is_loopback (mk_addr true 2130706687) = true.
+Proof. vm_compute. repeat split. Qed.
+
+(* ---- which records a matched view serves ---- *)
+
+(* translator tie: views.nameMatches, as translated from the source now — a plain owner covers exactly
+   itself; an owner "*.S" covers exactly the names H ++ "." ++ S (strictly below S, on a label boundary) *)
+Theorem nameMatches_is_wildcard_cover : forall owner q,
+  let o := go_canonical_name_ascii owner in
+  go_nameMatches owner q = true <->
+  (go_has_prefix N.eqb o [42; 46] = false /\ o = q) \/
+  (exists s h, o = 42 :: 46 :: s /\ q = (h ++ [46]) ++ s).
+Proof. exact gen_nameMatches. Qed.
+Print Assumptions nameMatches_is_wildcard_cover.
+
+(* a view answers a question iff it holds a record of the asked type whose owner covers the name *)
+Theorem view_answers_iff_a_record_matches : forall answers qname qtype,
+  view_has_record answers qname qtype = existsb (rec_matches (go_canonical_name_ascii qname) qtype) answers.
+Proof. exact view_has_record_iff. Qed.
+Print Assumptions view_answers_iff_a_record_matches.
+
+(* an exact owner beats every covering wildcard; nothing is served that does not match name and type *)
+Theorem view_serves_exact_over_wildcard : forall answers qname qtype,
+  let q := go_canonical_name_ascii qname in
+  (existsb (fun rr => rec_matches q qtype rr && negb (wildcard_owner (go_canonical_name_ascii (fst rr)))) answers = true ->
+   Forall (exact_rec answers q qtype) (view_answer answers qname qtype)) /\
+  Forall (fun j => exact_rec answers q qtype j \/ wild_rec answers q qtype j) (view_answer answers qname qtype).
+Proof. exact view_answer_kinds. Qed.
+Print Assumptions view_serves_exact_over_wildcard.
+
+Example view_record_examples :
+  let b := bytes_of in
+  let recs := [(b "*.example."%string, 1); (b "example."%string, 1); (b "*.sub.example."%string, 1); (b "sub.example."%string, 1); (b "HOST.Example."%string, 1)] in
+  view_answer recs (b "x.sub.example."%string) 1 = [2%nat] /\      (* closest enclosing wildcard *)
+  view_answer recs (b "sub.example."%string) 1 = [3%nat] /\        (* exact owner beats the covering wildcard *)
+  view_answer recs (b "Host.EXAMPLE."%string) 1 = [4%nat] /\       (* case-insensitive *)
+  view_answer recs (b "xsub.example."%string) 1 = [0%nat] /\       (* label boundary: not below sub.example. *)
+  view_answer recs (b "example."%string) 1 = [1%nat] /\            (* a wildcard does not cover its own suffix *)
+  view_answer recs (b "x.sub.example."%string) 28 = [].             (* other type: falls through *)
 Proof. vm_compute. repeat split. Qed.
 
 (* non-vacuity: concrete lists and addresses meeting the hypotheses, with both verdicts *)
